@@ -105,12 +105,12 @@ fn action(ctx: &mut Ctx, rig: &mut Rig<DefaultRiskManager<State>>, model: &mut M
     true
 }
 
-fn one_case(ctx: &mut Ctx, lay: &std::sync::Arc<Layout>, cfgs: &[Cfg], f_cancel: &Filt, f_close: &Filt, trading: TradingState) {
+fn one_case(ctx: &mut Ctx, lay: &std::sync::Arc<Layout>, cfgs: &[Cfg], f_cancel: &Filt, f_close: &Filt, trading: TradingState, close_only: bool) {
     let links = [Link::Healthy; N_EX];
     let mut rig = build(lay, links, trading, DefaultRiskManager::<State>::default());
     let mut model = Model::new(lay, links, trading == TradingState::Enabled, &[]);
     let setup = setup_events(lay, cfgs);
-    let input = || format!("per-instrument (orders bits OIF|OPEN|CIF-none|CIF-some, pos, price)={:?}; setup events={setup:?}; then CancelOrders({f_cancel:?}) x2, ClosePositions({f_close:?})", cfgs.iter().map(|c| (c.orders, c.pos, c.price)).collect::<Vec<_>>());
+    let input = || format!("all links healthy, trading {trading:?}; setup events={setup:?}; then {}", if close_only { format!("ClosePositions({f_close:?})") } else { format!("CancelOrders({f_cancel:?}) twice") });
     for ev in &setup {
         let real = ev.real(lay);
         if catch_unwind(AssertUnwindSafe(|| { let _ = rig.engine.process(real); })).is_err() { ctx.fail(L_SETUP, &input, format!("panic in set-up at {ev:?}"), "no panic".into()); return; }
@@ -124,6 +124,11 @@ fn one_case(ctx: &mut Ctx, lay: &std::sync::Arc<Layout>, cfgs: &[Cfg], f_cancel:
         let ok = (c.orders & 1 == 0 || has("f") == Some(MState::Oif)) && (c.orders >> 1 & 1 == 0 || matches!(has("o"), Some(MState::Open(_)))) && (c.orders >> 2 & 1 == 0 || has("n") == Some(MState::Cif(None))) && (c.orders >> 3 & 1 == 0 || matches!(has("s"), Some(MState::Cif(Some(_)))))
             && (c.pos == 0) == (model.pos[i] == 0) && (c.price == 0) == model.price(i).is_none();
         if !ok { ctx.fail(L_SETUP, &input, format!("instrument {i}: reference state {:?} pos {} price {:?}", model.orders[i], model.pos[i], model.price(i)), format!("{c:?}")); return; }
+    }
+    if close_only {
+        let close = Ev::CmdClose(f_close.clone());
+        action(ctx, &mut rig, &mut model, &close, f_close, L_CLOSE, &input);
+        return;
     }
     let cancel = Ev::CmdCancelAll(f_cancel.clone());
     if !action(ctx, &mut rig, &mut model, &cancel, f_cancel, L_CANCEL, &input) { return; }
@@ -141,8 +146,11 @@ fn one_case(ctx: &mut Ctx, lay: &std::sync::Arc<Layout>, cfgs: &[Cfg], f_cancel:
         }
         Err(_) => { ctx.fail(L_REPEAT, &input, "panic".into(), "no panic".into()); return; }
     }
-    let close = Ev::CmdClose(f_close.clone());
-    action(ctx, &mut rig, &mut model, &close, f_close, L_CLOSE, &input);
+    // (orders being cancelled must not disturb closing: also close on this engine when the cancel part was clean)
+    if ctx.seen.is_empty() {
+        let close = Ev::CmdClose(f_close.clone());
+        action(ctx, &mut rig, &mut model, &close, f_close, L_CLOSE, &|| format!("{} then ClosePositions({f_close:?})", input()));
+    }
 }
 
 pub fn run(seed: u64, thorough: bool) -> u64 {
@@ -161,7 +169,8 @@ pub fn run(seed: u64, thorough: bool) -> u64 {
         let f_cancel = fs[(k % fs.len() as u64) as usize].clone();
         let f_close = if k % 3 == 0 { fs[rng.below(fs.len() as u64) as usize].clone() } else { f_cancel.clone() };
         let trading = if k % 5 == 4 { TradingState::Enabled } else { TradingState::Disabled };
-        one_case(&mut ctx, &lay, &cfgs, &f_cancel, &f_close, trading);
+        one_case(&mut ctx, &lay, &cfgs, &f_cancel, &f_close, trading, false);
+        one_case(&mut ctx, &lay, &cfgs, &f_cancel, &f_close, trading, true);
         n += 1;
     }
     n
